@@ -63,13 +63,13 @@ type c07fiPart struct {
 
 type c07fiFeature struct {
 	name  string
-	dim   string                              // settings dimension; "" for a rule feature
-	when  byte                                // settings features: when it counts as fired
-	set   func(b *c07fiB)                     // settings feature: emit directives
+	dim   string                                  // settings dimension; "" for a rule feature
+	when  byte                                    // settings features: when it counts as fired
+	set   func(b *c07fiB)                         // settings feature: emit directives
 	rule  func(b *c07fiB, s *c07fiSlot) c07fiPart // rule feature
-	dis   bool                                // rule feature carrying a disruptive action
-	pref  []int                               // preferred phases (nil = any)
-	after bool                                // prefers a late position (state switches that matter at logging time)
+	dis   bool                                    // rule feature carrying a disruptive action
+	pref  []int                                   // preferred phases (nil = any)
+	after bool                                    // prefers a late position (state switches that matter at logging time)
 }
 
 func c07fiPick(r *rand.Rand, xs ...string) string { return xs[r.IntN(len(xs))] }
@@ -1294,4 +1294,3 @@ func c07fiFinish(d *fw.D) {
 		d.Count("fi_features_all_fired", 1)
 	}
 }
-
